@@ -101,10 +101,20 @@ func verifHarness_C02_H(n int) {
 	verifAssume(id < 1<<24)
 	ck := verifNondetU16()
 	payload := verifNondetBytes(n)
-	wire := verifSpecV2(0, compat, seq, sys, comp, id, payload, ck, false, 0, 0, nil)
+	// the incompatibility-flags byte may be damaged too (anything but the signed flag alone, which announces a
+	// signature block this stream does not hold)
+	incompat := verifNondetU8()
+	verifAssume(incompat != 1)
+	wire := verifSpecV2(incompat, compat, seq, sys, comp, id, payload, ck, false, 0, 0, nil)
 	rd := &Reader{ByteReader: &verifChunkReader{data: wire}, DialectRW: d}
 	verifAssert(rd.Initialize() == nil, "C02/H/init")
 	fr, err := rd.Read()
+	if err != nil {
+		// the whole frame is in the stream: whatever is wrong with it is a non-fatal parse error, never a transport error
+		verifAssert(fr == nil, "C02/H/refused-no-frame")
+		verifAssert(verifIsReadError(err), "C02/H/refused-is-parse-error")
+	}
+	verifAssert(verifImplies(incompat != 0, err != nil), "C02/H/unknown-incompatibility-flags-refused")
 	if err == nil {
 		_, isRaw := fr.GetMessage().(*message.MessageRaw)
 		if !isRaw {
@@ -113,7 +123,7 @@ func verifHarness_C02_H(n int) {
 			okck := false
 			for _, s := range verifSpecs() {
 				inDialect = verifOr(inDialect, id == s.id)
-				okck = verifOr(okck, verifAnd(id == s.id, ck == verifSpecChecksumV2(0, compat, seq, sys, comp, id, payload, verifSpecCRCExtra(s))))
+				okck = verifOr(okck, verifAnd(id == s.id, ck == verifSpecChecksumV2(incompat, compat, seq, sys, comp, id, payload, verifSpecCRCExtra(s))))
 			}
 			verifAssert(inDialect, "C02/H/decoded-only-if-wire-id-in-dialect")
 			verifAssert(okck, "C02/H/decoded-only-if-checksum-covers-wire-bytes")
